@@ -67,6 +67,19 @@ type Extractor struct {
 // clone creates a shallow copy of the Extractor with a deep copy of options.
 // This ensures immutability - each chain method returns a new instance.
 func (e *Extractor) clone() *Extractor {
+	if e.ownsReader && e.filename != "" {
+		// A reader this extractor opened itself stays private to it: the copy
+		// opens its own on demand. Sharing it would let a terminal operation on
+		// the copy close the reader under the original (and vice versa).
+		return &Extractor{
+			filename:  e.filename,
+			format:    e.format,
+			options:   e.options.clone(),
+			err:       e.err,
+			warnings:  append([]Warning(nil), e.warnings...),
+			ocrClient: e.ocrClient,
+		}
+	}
 	newExt := &Extractor{
 		filename:     e.filename,
 		format:       e.format,
